@@ -353,6 +353,20 @@ def api_job(job):
         payload = bytes(sim.runtime) if fam == "ES" else b""
         for key, msg, c in check_relations(acc, fam, tname, payload, d):
             acc.fail(key.replace("C13|%s|" % fam, "C13|%s|api|" % fam) if False else key, "[read_runtime_data] " + msg, case)
+        if fam in ("ET", "DT"):
+            # the same label/code pairs fetched one by one (read_sensor) from the unchanged registers
+            want_ids = [i for lid, (cid, _t) in LABELS[fam].items() for i in (lid, cid) if lid in d and cid in d]
+            d1 = {}
+            for sid in want_ids:
+                try:
+                    d1[sid] = run_sync(inv.read_sensor(sid))
+                except Exception as ex:     # computed kinds are not readable one by one (C16's finding), refusals etc.
+                    acc.cls("api|read_sensor|%s" % type(ex).__name__)
+            if d1:
+                acc.case()
+                acc.nontrivial("api-single", fam, k, seed)
+                for key, msg, c in check_relations(acc, fam, tname, payload, d1, only={i for i in d1 if i in LABELS[fam]}):
+                    acc.fail(key, "[read_sensor, one id at a time] " + msg, dict(case, single=True))
     return acc
 
 
